@@ -56,7 +56,7 @@ def st_rating(draw):
     ts = draw(st.sampled_from(["zef18", "zef18", "zef18", "dir", "tuple"]))
     names = draw(st.sampled_from([None, None, "subset", "subset_with_binary"]))
     if names == "subset":
-        names = draw(st.lists(st.sampled_from(FEATS), min_size=2, max_size=6, unique=True))
+        names = draw(st.lists(st.sampled_from(FEATS), min_size=1, max_size=6, unique=True))
     elif names == "subset_with_binary":
         names = draw(st.lists(st.sampled_from(FEATS), min_size=2, max_size=5, unique=True)) + \
             draw(st.lists(st.sampled_from(BIN), min_size=1, max_size=2, unique=True))
@@ -72,7 +72,8 @@ def st_case(draw):
                                 noise=st.sampled_from([2e-3, 1e-2, 3e-2]), tilt=True, wide=False))
     curve["params"]["baseline"] = 0.0
     prefix = draw(st.sampled_from(["fresh", "preprocessed", "fitted", "fitted", "fitted", "fitted_edited",
-                                   "unsuccessful", "refitted", "failed_fit"]))
+                                   "unsuccessful", "unsuccessful_multipass", "unsuccessful_multipass", "refitted",
+                                   "failed_fit"]))
     ops = []
     n = draw(st.integers(2, 5))
     for i in range(n):
@@ -118,6 +119,10 @@ def reach(idnt, prefix, curve):
                 idnt.fit_model(weight_cp=0, range_x=[-0.5 * curve["depth"], 0.5 * curve["z0"]])
         elif prefix == "unsuccessful":
             fit_default(idnt, curve, range_x=[1.0, 1.0 + 1e-12])
+        elif prefix == "unsuccessful_multipass":
+            # first pass of a 'relative cp' fit succeeds, the last one has too few points: success False next to
+            # parameters of the earlier pass
+            fit_default(idnt, curve, range_type="relative cp", range_x=[-1e-13, 1e-13])
         elif prefix == "failed_fit":
             fit_default(idnt, curve)
             idnt.fit_model(range_type="no_such_type")
